@@ -6,6 +6,8 @@ PO = "nessai/posterior.py"
 UST = "nessai/utils/stats.py"
 
 SW = "Sum(j, 0, len(log_w), E(log_w[j]))"
+QS = (f"Sum(k, 0, len(log_w), (E(log_w[k]) / {SW}) * "
+      f"(E(log_w[k]) / {SW}))")
 contract(
     UST, "effective_sample_size", props=["C16", "C15"], log_domain=True,
     params={"log_w": "Seq(Real)"},
@@ -13,12 +15,17 @@ contract(
     requires=["exists(k, 0, len(log_w), E(log_w[k]) > 0)"],
     returns="Real",
     hints=[("before_ensures", 1, f"lemma_sum_pos({SW})"),
-           ("before_ensures", 1, f"lemma_sum_pos(Sum(k, 0, len(log_w), "
-            f"(E(log_w[k]) / {SW}) * (E(log_w[k]) / {SW})))")],
+           ("before_ensures", 4, f"lemma_sum_pos({QS})")],
     ensures=[
         # Kish: 1 / sum p_i^2 with p_i = w_i / sum w
-        f"result == 1 / Sum(k, 0, len(log_w), "
-        f"(E(log_w[k]) / {SW}) * (E(log_w[k]) / {SW}))",
+        f"result == 1 / {QS}",
+        # positivity, step by step (each step is assumed for the next)
+        f"{SW} > 0",
+        f"forall(k, 0, len(log_w), (E(log_w[k]) / {SW}) * "
+        f"(E(log_w[k]) / {SW}) >= 0)",
+        f"exists(k, 0, len(log_w), (E(log_w[k]) / {SW}) * "
+        f"(E(log_w[k]) / {SW}) > 0)",
+        f"{QS} > 0",
         "result > 0",
     ],
 )
